@@ -58,6 +58,9 @@ THEOREMS = [
     "AiuVerif.C07.collective_free_untouched",
     "AiuVerif.C07.sorted_out",
     "AiuVerif.C07.epoch_invariant",
+    "AiuVerif.C07.epoch_counters",
+    "AiuVerif.C07.epoch_dependent_chain3",
+    "AiuVerif.C07.old_formula_displaces_rank0",
 ]
 RULE = ("scenario cases: generated chain-allreduce traces (R ranks, G groups, epochs, host offsets, jitter, naming "
         "variant) pushed through the real ingestion + prefix pipeline; synthetic cases: event lists in the same "
